@@ -1,5 +1,11 @@
 package zzvrf
 
+import (
+	"errors"
+	"net/mail"
+	"net/textproto"
+)
+
 // Models of library functions, executed symbolically by the engine in place of the real
 // functions (see engine/sx/redirects.go). They are never called in native builds.
 
@@ -34,4 +40,45 @@ func ModelSortSlice(x interface{}, less func(i, j int) bool) {
 			}
 		}
 	}
+}
+
+// ---- enmime header decoding (third-party MIME parser: outside the encoding) ----
+// The harness states which From / To / Subject header values the message carries; the model hands
+// exactly those to the caller. Natively the real enmime parses the real source, which the harness
+// builds from the same values.
+
+// HdrFrom, HdrTo, HdrSubject are the header values of the message being delivered ("" = absent).
+var HdrFrom, HdrTo, HdrSubject string
+
+// ModelEnmimeDecodeHeaders models enmime.DecodeHeaders.
+func ModelEnmimeDecodeHeaders(b []byte, addtl ...string) (textproto.MIMEHeader, error) {
+	h := textproto.MIMEHeader{}
+	if HdrFrom != "" {
+		h["From"] = []string{HdrFrom}
+	}
+	if HdrTo != "" {
+		h["To"] = []string{HdrTo}
+	}
+	if HdrSubject != "" {
+		h["Subject"] = []string{HdrSubject}
+	}
+	return h, nil
+}
+
+// ModelMIMEHeaderGet models textproto.MIMEHeader.Get for canonical keys.
+func ModelMIMEHeaderGet(h textproto.MIMEHeader, key string) string {
+	v := h[key]
+	if len(v) == 0 {
+		return ""
+	}
+	return v[0]
+}
+
+// ModelEnmimeParseAddressList models enmime.ParseAddressList for the plain addr-spec values the
+// harness uses: an empty list is an error, otherwise one address.
+func ModelEnmimeParseAddressList(list string) ([]*mail.Address, error) {
+	if list == "" {
+		return nil, errors.New("mail: no address")
+	}
+	return []*mail.Address{{Address: list}}, nil
 }
